@@ -610,16 +610,17 @@ example : (Trace.run exEnv (start exMap) exStream).2.1 = none ∧
 def recOf (o : TraceOut) (body : String) : TraceRec :=
   { timestamp := (firstOf o.events).timestamp, tid := (firstOf o.events).tid, body := body }
 
-/-- **e2e_line_shape.**  For every readable dump (any bytes `dumpOf` accepts), every filter configuration, environment
+/-- **e2e_line_shape.**  For every readable dump (any bytes `dumpOf` accepts: version 2 or version 3, under any
+    reading `plist` of the property lists), every filter configuration, environment
     and column setting: line `i` of `formatted_traces` is `_format_trace` — colour off, on the lookup tables AS THEY ARE
     WHEN TRACE `i` IS YIELDED — of (first record's timestamp, first record's thread id, `str(trace)`) for trace `i` of
     `traces`, in order: `formatted_traces` adds nothing, reorders nothing and drops nothing but the traces from the first
     rendering exception on.  The list ends either with the traces (then the exception, if any, is the trace layer's or
     else the container's) or at the first trace whose text raises (then that exception is reported). -/
-theorem e2e_line_shape (env : Env) (obj : TracePipeline.Obj) (sh : Show) (file : Bytes) (d : TracePipeline.Dump)
-    (cerr : Option PyErr) (hd : EndToEnd.dumpOf file = .ok (d, cerr)) :
+theorem e2e_line_shape (env : Env) (obj : TracePipeline.Obj) (sh : Show) (plist : Bytes → Option PView) (file : Bytes)
+    (d : TracePipeline.Dump) (cerr : Option PyErr) (hd : EndToEnd.dumpOf plist file = .ok (d, cerr)) :
     let tr := (TracePipeline.traces env obj d).1.traces
-    let out := EndToEnd.formattedTraces env obj sh file
+    let out := EndToEnd.formattedTraces env obj sh plist file
     (∀ (i : Nat) line, out.1[i]? = some line → ∃ o T body, tr[i]? = some (o, T) ∧ o.text = .ok body ∧
         line = formatTrace sh Colour.off (EndToEnd.fmtTables T) (recOf o body)) ∧
     ((out.1.length = tr.length ∧
@@ -628,8 +629,8 @@ theorem e2e_line_shape (env : Env) (obj : TracePipeline.Obj) (sh : Show) (file :
                 | none => cerr) ∨
      (∃ o T e, tr[out.1.length]? = some (o, T) ∧ o.text = .error e ∧ out.2 = some e)) := by
   intro tr out
-  have h1 : out.1 = (EndToEnd.formatAll sh tr).1 := EndToEnd.formattedTraces_lines env obj sh file d cerr hd
-  have h2 := EndToEnd.formattedTraces_err env obj sh file d cerr hd
+  have h1 : out.1 = (EndToEnd.formatAll sh tr).1 := EndToEnd.formattedTraces_lines env obj sh plist file d cerr hd
+  have h2 := EndToEnd.formattedTraces_err env obj sh plist file d cerr hd
   obtain ⟨s1, s2⟩ := EndToEnd.formatAll_shape sh tr
   refine ⟨?_, ?_⟩
   · intro i line hl
@@ -640,22 +641,23 @@ theorem e2e_line_shape (env : Env) (obj : TracePipeline.Obj) (sh : Show) (file :
     rcases s2 with ⟨hlen, herr⟩ | ⟨⟨o, T⟩, e, hp, ht, herr⟩
     · left
       refine ⟨hlen, ?_⟩
-      show (EndToEnd.formattedTraces env obj sh file).2 = _
+      show (EndToEnd.formattedTraces env obj sh plist file).2 = _
       rw [h2]
       show (match (EndToEnd.formatAll sh tr).2 with | some e => some e | none => _) = _
       rw [herr]
       cases (TracePipeline.traces env obj d).1.err <;> rfl
     · right
       refine ⟨o, T, e, hp, ht, ?_⟩
-      show (EndToEnd.formattedTraces env obj sh file).2 = _
+      show (EndToEnd.formattedTraces env obj sh plist file).2 = _
       rw [h2]
       show (match (EndToEnd.formatAll sh tr).2 with | some e => some e | none => _) = _
       rw [herr]
 
-/-- … and an unreadable dump (not version 2, or a header that does not parse) yields no line, only its exception. -/
-theorem e2e_unreadable (env : Env) (obj : TracePipeline.Obj) (sh : Show) (file : Bytes) (e : PyErr)
-    (h : EndToEnd.dumpOf file = .error e) : EndToEnd.formattedTraces env obj sh file = ([], some e) :=
-  EndToEnd.formattedTraces_unreadable env obj sh file e h
+/-- … and an unreadable dump (neither version 2 nor version 3, or a header / thread-map chunk that does not parse) yields
+    no line, only its exception. -/
+theorem e2e_unreadable (env : Env) (obj : TracePipeline.Obj) (sh : Show) (plist : Bytes → Option PView) (file : Bytes)
+    (e : PyErr) (h : EndToEnd.dumpOf plist file = .error e) : EndToEnd.formattedTraces env obj sh plist file = ([], some e) :=
+  EndToEnd.formattedTraces_unreadable env obj sh plist file e h
 
 /-- **e2e_process_column.**  Line `i` of `formatted_traces` is the concatenation of the enabled columns of its trace, and
     its process column names the process the dump declares for the trace's thread AT THE TRIGGER EVENT: there is an
@@ -665,9 +667,10 @@ theorem e2e_unreadable (env : Env) (obj : TracePipeline.Obj) (sh : Show) (file :
     The stream is the one the decoders are fed: with a thread / class / subclass filter the declaring records of other
     threads or classes are not seen (known finding K3 for the process filter); without one it is the whole dump
     (`e2e_process_column_unfiltered`). -/
-theorem e2e_process_column (env : Env) (hbn : BenignNested env) (obj : TracePipeline.Obj) (sh : Show) (file : Bytes)
-    (d : TracePipeline.Dump) (cerr : Option PyErr) (hd : EndToEnd.dumpOf file = .ok (d, cerr))
-    (i : Nat) (line : String) (hl : (EndToEnd.formattedTraces env obj sh file).1[i]? = some line) :
+theorem e2e_process_column (env : Env) (hbn : BenignNested env) (obj : TracePipeline.Obj) (sh : Show)
+    (plist : Bytes → Option PView) (file : Bytes)
+    (d : TracePipeline.Dump) (cerr : Option PyErr) (hd : EndToEnd.dumpOf plist file = .ok (d, cerr))
+    (i : Nat) (line : String) (hl : (EndToEnd.formattedTraces env obj sh plist file).1[i]? = some line) :
     ∃ o T body pre e post,
       (TracePipeline.traces env obj d).1.traces[i]? = some (o, T) ∧ o.text = .ok body ∧
       TracePipeline.fedEvents obj.cfg d = pre ++ e :: post ∧
@@ -675,7 +678,7 @@ theorem e2e_process_column (env : Env) (hbn : BenignNested env) (obj : TracePipe
       line = joinCols sh (traceCols (EndToEnd.fmtTables T) (recOf o body)) ∧
       textOf .process (traceCols (EndToEnd.fmtTables T) (recOf o body))
         = padRight 34 (processSpec (declaredTables env d.threadMap (pre ++ [e])) o.tid) := by
-  obtain ⟨o, T, body, hp, ht, hline⟩ := (e2e_line_shape env obj sh file d cerr hd).1 i line hl
+  obtain ⟨o, T, body, hp, ht, hline⟩ := (e2e_line_shape env obj sh plist file d cerr hd).1 i line hl
   have hmem : (o, T) ∈ runAnnot env (start d.threadMap) (TracePipeline.fedEvents obj.cfg d) :=
     EndToEnd.mem_traces env obj d (o, T) (List.mem_of_getElem? hp)
   obtain ⟨pre, e, post, hm, ho, hproc⟩ := process_column_spec env hbn d.threadMap _ o T hmem
@@ -688,9 +691,10 @@ theorem e2e_process_column (env : Env) (hbn : BenignNested env) (obj : TracePipe
 /-- The same without thread / class / subclass filter (any process filter): the trigger event splits THE DUMP's events,
     i.e. the column is what the whole dump declares up to and including that event. -/
 theorem e2e_process_column_unfiltered (env : Env) (hbn : BenignNested env) (obj : TracePipeline.Obj) (sh : Show)
-    (file : Bytes) (d : TracePipeline.Dump) (cerr : Option PyErr) (hd : EndToEnd.dumpOf file = .ok (d, cerr))
+    (plist : Bytes → Option PView) (file : Bytes) (d : TracePipeline.Dump) (cerr : Option PyErr)
+    (hd : EndToEnd.dumpOf plist file = .ok (d, cerr))
     (h1 : obj.cfg.filterTid = none) (h2 : obj.cfg.filterClass = []) (h3 : obj.cfg.filterSubclass = [])
-    (i : Nat) (line : String) (hl : (EndToEnd.formattedTraces env obj sh file).1[i]? = some line) :
+    (i : Nat) (line : String) (hl : (EndToEnd.formattedTraces env obj sh plist file).1[i]? = some line) :
     ∃ o T body pre e post,
       (TracePipeline.traces env obj d).1.traces[i]? = some (o, T) ∧ o.text = .ok body ∧
       d.events = pre ++ e :: post ∧
@@ -698,7 +702,7 @@ theorem e2e_process_column_unfiltered (env : Env) (hbn : BenignNested env) (obj 
       textOf .process (traceCols (EndToEnd.fmtTables T) (recOf o body))
         = padRight 34 (processSpec (declaredTables env d.threadMap (pre ++ [e])) o.tid) := by
   obtain ⟨o, T, body, pre, e, post, hp, ht, hm, _, hline, hcol⟩ :=
-    e2e_process_column env hbn obj sh file d cerr hd i line hl
+    e2e_process_column env hbn obj sh plist file d cerr hd i line hl
   rw [EndToEnd.fedEvents_nofilter obj.cfg d h1 h2 h3] at hm
   exact ⟨o, T, body, pre, e, post, hp, ht, hm, hline, hcol⟩
 
@@ -715,16 +719,16 @@ theorem e2e_exEnv_benign : BenignNested EndToEnd.exEnv := by
 /-- six lines; thread 9 is shown as `(50)` once thread 7's new-thread record has declared it and as `new(50)` once the
     name string has arrived; thread 8 is never declared; with the process column off and the thread column on. -/
 example :
-    EndToEnd.formattedTraces EndToEnd.exEnv {} {} (Spec.encodeV2 EndToEnd.exFile) =
+    EndToEnd.formattedTraces EndToEnd.exEnv {} {} EndToEnd.noPlist (Spec.encodeV2 EndToEnd.exFile) =
       (["1 launchd(42)                       Process exit name: x",
         "2 launchd(42)                       New thread 9 of parent: 50",
         "3 (50)                              Process exit name: y",
         "4 launchd(42)                       New thread of parent: new",
         "5 new(50)                           Process exit name: z",
         "6 Error: tid 8                      Process exit name: {"], none) ∧
-    (EndToEnd.formattedTraces EndToEnd.exEnv {} { process := false, tid := true } (Spec.encodeV2 EndToEnd.exFile)).1.take 2 =
+    (EndToEnd.formattedTraces EndToEnd.exEnv {} { process := false, tid := true } EndToEnd.noPlist (Spec.encodeV2 EndToEnd.exFile)).1.take 2 =
       ["1           7 Process exit name: x", "2           7 New thread 9 of parent: 50"] ∧
-    (EndToEnd.dumpOf (Spec.encodeV2 EndToEnd.exFile)).toOption.map (fun p =>
+    (EndToEnd.dumpOf EndToEnd.noPlist (Spec.encodeV2 EndToEnd.exFile)).toOption.map (fun p =>
         (processSpec (declaredTables EndToEnd.exEnv p.1.threadMap (p.1.events.take 3)) 9,
          processSpec (declaredTables EndToEnd.exEnv p.1.threadMap (p.1.events.take 5)) 9,
          processSpec (declaredTables EndToEnd.exEnv p.1.threadMap (p.1.events.take 6)) 8))
